@@ -31,6 +31,11 @@ def history(rng, arch, nops, name):
                 rows.append((ln // 2, suites.rand_row(rng, arch)))
             fdes.append(dict(start=pos, len=ln, rows=rows))
             pos += ln + rng.choice([0, 0x10])
+        # a row whose CFA is an expression over the frame pointer while everything else looks standard (PLT stubs, signal
+        # trampolines): its result depends on the registers of the call, never on what an earlier call computed
+        R = ARCH_REGS[arch]
+        fdes.append(dict(start=pos, len=0x40, rows=[(0, dict(cfa=("e", [("breg", R["fp"], 16)]), fp=("s",), ra=("o", -8)))]))
+        pos += 0x40
         pres = ["hdr", "eh", "debug"][i % 3]
         end = base_avma + (pos - base_svma) + 0x40
         s.module_dwarf("M%d" % i, base_avma, end, base_avma, base_svma, pres, fdes, rng, shuffle=True)
